@@ -68,6 +68,34 @@ HUNT = {
         "file (known finding).",
 }
 
+# clauses added after seeding round 6 (seeded/ROUNDS.md); appended after HUNT
+ROUND6 = {
+ "C01": "Round 6: every rewriting pass fills each rebuilt sub-term field from a call of the traversal; an arm that returns early has moved "
+        "its translated sub-terms into a value; the precedence table (shared with C11).",
+ "C02": "Round 6: the Go-level rewrites (known-variant selection, DCE) recurse into every nested block.",
+ "C03": "Round 6: argument-type lists of every call form reach a constraint as a function type (arity); literal forms the builder types by a "
+        "fixed type have no checking rule of their own.",
+ "C04": "Round 6: the solver never claims progress while re-queueing the constraint it looks at; forms compile_cexpr refuses never reach it; "
+        "grammar markers are closed exactly once on every path (shared with C12).",
+ "C05": "Round 6: a function body is resolved in an environment created in its resolver; only one-segment paths name locals; one pattern or "
+        "parameter list binds a name once (repaired defect).",
+ "C06": "Round 6: the gate after the match compiler tests the match compiler's diagnostics; a literal pattern is range-checked at the type it is built at.",
+ "C07": "Round 6: definitions are instantiated before nested applications are collapsed; type parameters are substituted simultaneously; every "
+        "arm that computes a specialised node's type yields a substituted type.",
+ "C08": "Round 6: both registrations of a closure's apply function carry the generated function's type; closure types are fully specialised.",
+ "C09": "Round 6: no early return of a pass arm leaves an already translated sub-term behind.",
+ "C10": "Round 6: numeric literal text is prepared identically wherever it is parsed; *_to_string helpers never convert to a fixed width; a loop body is unit.",
+ "C11": "Round 6: EXPR_FIRST contains every token that starts an expression; only a tuple type is split into function-type parameters.",
+ "C12": "Round 6: cursor and tree builder skip tokens by is_trivia alone; marker typestate over the whole grammar.",
+ "C14": "Round 6: serialised artifacts contain no hash-ordered container (shared with C13); the whole-program loader skips no file.",
+ "C15": "Round 6: artifact writes are unconditional; no hash-ordered container feeds the interface hash (shared with C13).",
+ "C16": "Round 6: the locality test of inherent impls is unconditional; every pinned interface hash is compared at link (shared with C15).",
+ "C17": "Round 6: every cross-package impl search asks the current package and all dependencies; resolved trait names are never discarded.",
+ "C18": "Round 6: a generated body reads its receiver once; integer leaves are rendered at their own width (shared with C10).",
+ "C19": "Round 6: a binder named like a variant stays a binder in call position (shared with C05).",
+ "C20": "Round 6: the method filter rejects functions without parameters; byte scanning of the textual fallbacks is bounds-guarded (shared with C04).",
+}
+
 CLAIMED = {
  "C01": dict(
    text="Semantic preservation is NOT decided. Decided on every arm of every pass: pass totality (no catch-all over the input IR, anchor "
@@ -248,6 +276,8 @@ def main():
                 c["text"] = c["text"] + " " + EXTRA[pid]
             if pid in HUNT:
                 c["text"] = c["text"] + " " + HUNT[pid]
+            if pid in ROUND6:
+                c["text"] = c["text"] + " " + ROUND6[pid]
             m["checks"].append({
                 "property_id": pid,
                 "quick_cmd": f"./check {pid} --tier quick",
